@@ -48,6 +48,7 @@ func zzC04DenseMergeDense(Ls, Lo int) {
 	zzvAssert("inv-preserved", zzInvDense(s))
 	zzvAssert("count-conserved", s.count == preS.count+preO.count)
 	zzvAssert("argument-unchanged", zzSameDense(o, &preO))
+	zzvAssert("receiver-and-argument-share-no-memory", zzvDisjoint(s, o))
 	p := zzvMInt("probe", -(1 << 35), 1<<35)
 	zzvAssert("content", zzAbsDense(s, p) == zzAbsDense(&preS, p)+zzAbsDense(&preO, p))
 	// the receiver must not have adopted the argument's memory: a later addition to the receiver
@@ -75,6 +76,7 @@ func zzC04DenseCopyClear(L int) {
 	zzvAssert("copy-inv", zzInvDense(cp))
 	zzvAssert("copy-equal", zzSameDense(cp, &pre))
 	zzvAssert("original-unchanged-by-copy", zzSameDense(s, &pre))
+	zzvAssert("copy-shares-no-memory-with-original", zzvDisjoint(s, cp))
 	// independence: mutate one side, the other keeps its content
 	i := zzIdx("i")
 	c := zzWPos("c")
